@@ -62,14 +62,18 @@ int main(int argc, char **argv)
             /* ---- subsystem + registrations */
             spifconf_init_subsystem(); subsys_live = 1;
             cx_ctxs_init(&ctxs);
-            if (null_replaced) {
-                vh_op("register null (replaces the built-in handler)");
-                unsigned char id = spifconf_register_context((spif_charptr_t) "null", cx_handlers[0]);
-                int want = cx_ctxs_register(&ctxs, "null", 0);
-                VH_CHECK(id == want, "register:id", "registering \"null\" returned id %u, expected %d", id, want);
-            }
-            for (int i = 0; i < n_reg; i++) {
+            /* the handler of the null context may be replaced at any point of the registration sequence: before, between or after the others */
+            int null_at = null_replaced ? (vh_coin(50) ? 0 : (int) vh_range(0, n_reg)) : -1;
+            for (int i = 0; i <= n_reg; i++) {
                 char nm[24];
+                if (i == null_at) {
+                    vh_op("register null (replaces the built-in handler) after %d other contexts", i);
+                    unsigned char id = spifconf_register_context((spif_charptr_t) "null", cx_handlers[0]);
+                    int want = cx_ctxs_register(&ctxs, "null", 0);
+                    VH_CHECK(id == want, "register:id", "registering \"null\" after %d other contexts returned id %u, expected %d", i, id, want);
+                    if (i > 0) vh_count("null_replaced_after_other_contexts", 1);
+                }
+                if (i == n_reg) break;
                 if (many_ctx) snprintf(nm, sizeof nm, "c%d", i); else snprintf(nm, sizeof nm, "%s", NAMES[i]);
                 int want = cx_ctxs_register(&ctxs, nm, ctxs.n);          /* handler number == id */
                 unsigned char id = spifconf_register_context((spif_charptr_t) nm, cx_handlers[want]);
